@@ -377,6 +377,9 @@ func (s *LegacyServer) authenticateResourceClient(ctx context.Context, cc *Clien
 	if err := s.provider.Storage().AuthorizeClientIDSecret(ctx, cc.ClientID, cc.ClientSecret); err != nil {
 		return "", oidc.ErrUnauthorizedClient().WithParent(err)
 	}
+	if err := checkAuthMethodPost(ctx, cc.ClientID, s.provider); err != nil {
+		return "", err
+	}
 	return cc.ClientID, nil
 }
 
